@@ -4,6 +4,7 @@ import (
 	"crypto/rand"
 	"encoding/json"
 	"fmt"
+	"go.1password.io/spg"
 	"math"
 	"os"
 	"path/filepath"
@@ -100,13 +101,7 @@ func c14Run(c c14Case) error {
 		str  string
 	}
 	var seen []obs
-	pmodel := map[string]bool{"": c.Preset == "SFNone"}
-	if s, ok := presetSpec[c.Preset]; ok {
-		vs, _ := s.ValidStrings(1 << 12)
-		for _, v := range vs {
-			pmodel[v] = true
-		}
-	}
+	var presetVals []string
 	var mu sync.Mutex
 	var firstErr error
 	fail := func(e error) {
@@ -121,6 +116,7 @@ func c14Run(c c14Case) error {
 		seen = append(seen, obs{what, bits, str})
 		mu.Unlock()
 	}
+	var charPws []*spg.Password
 	var wg sync.WaitGroup
 	start := make(chan struct{})
 	setBuilders := 0
@@ -146,9 +142,9 @@ func c14Run(c c14Case) error {
 					case "c:Generate":
 						p, err := cr.Generate()
 						if err == nil {
-							if e := checkCharPassword(c.Char, p); e != nil {
-								fail(fmt.Errorf("under concurrency: %w", e))
-							}
+							mu.Lock()
+							charPws = append(charPws, p) // judged after the concurrent phase
+							mu.Unlock()
 							record("c:PasswordEntropy", math.Float32bits(p.Entropy), "")
 						}
 					case "c:Entropy":
@@ -179,9 +175,9 @@ func c14Run(c c14Case) error {
 						}
 					case "p:Call":
 						v, _ := preset()
-						if !pmodel[v] {
-							fail(fmt.Errorf("preset %s returned %q under concurrency", c.Preset, v))
-						}
+						mu.Lock()
+						presetVals = append(presetVals, v) // judged after the concurrent phase
+						mu.Unlock()
 					}
 				}
 			}
@@ -192,7 +188,26 @@ func c14Run(c c14Case) error {
 	if firstErr != nil {
 		return firstErr
 	}
-	// references from separate, freshly built copies
+	// references from separate, freshly built copies (class contents are
+	// learned from the library only now: its first use was concurrent)
+	learnClassesOnce()
+	for _, p := range charPws {
+		if e := checkCharPassword(c.Char, p); e != nil {
+			return fmt.Errorf("under concurrency: %w", e)
+		}
+	}
+	pmodel := map[string]bool{"": c.Preset == "SFNone"}
+	if s, ok := presetSpec[c.Preset]; ok {
+		vs, _ := s.ValidStrings(1 << 12)
+		for _, v := range vs {
+			pmodel[v] = true
+		}
+	}
+	for _, v := range presetVals {
+		if !pmodel[v] {
+			return fmt.Errorf("preset %s returned %q under concurrency", c.Preset, v)
+		}
+	}
 	refC := toRecipe(c.Char)
 	charEnt, alpha, sp = refC.Entropy(), refC.Alphabet(), refC.SuccessProbability()
 	refW, _, _ := buildWL(c.WL)
